@@ -90,6 +90,9 @@ def run_shard(spec):
         for tag, prog, length in faultgrid.index_programs():
             items.append((tag, prog, [[str(i)] for i in faultgrid.index_values(length, bits)],
                           lambda a, L=length: min(abs(int(a[0])), abs(int(a[0]) - L), abs(int(a[0]) - 8 * L)) <= 2))
+        for lit in (-1, 0, 4, 5, 6, -(1 << (bits - 1)), (1 << (bits - 1)) - 1, 40):
+            for tag, prog, length in faultgrid.index_programs(idx_lit=lit):
+                items.append((f'{tag}/literal{lit}', prog, [['0']], lambda a: True))
         for tag, prog in faultgrid.division_programs():
             items.append((tag, prog, [[str(a), str(b)] for a, b in faultgrid.division_values(bits)], lambda a: abs(int(a[1])) <= 2))
         for tag, prog in faultgrid.order_programs():
